@@ -435,11 +435,20 @@ func (s *sim) submit(spec TxSpec) {
 		c.Fault("byzantine-tx:" + classOf(label))
 	}
 	var err error
+	before := s.node.pool.GetTransactionCount()
 	panicked := callGuard(func() {
 		if e := s.node.pool.AppendToTxPool(info.tx); e != nil {
 			err = e
 		}
 	})
+	if err == nil && panicked == nil && s.node.pool.GetTransactionCount() <= before {
+		c.Fault("mempool-eviction-by-fee-rate")
+	}
+	if err != nil && strings.Contains(err.Error(), "over capacity") {
+		// the pool is at its size limit (admission refuses before the
+		// fee-ordered list would evict)
+		c.Fault("mempool-full-submission-refused")
+	}
 	if panicked != nil {
 		c.Violate("C03", "mempool", "C03/AppendToTxPool-panic/"+lastPanicSite, "AppendToTxPool panicked in %s (%s, from %s): %v", lastPanicSite, label, s.actors[mod(spec.From, len(s.actors))].weird, panicked)
 		s.dead = true
